@@ -19,12 +19,14 @@ from collections.abc import Mapping
 from vf import core
 from vf.sched import controller as ctlmod
 
-OK_KINDS = ('ok', 'ok_none')
+OK_KINDS = ('ok', 'ok_none', 'ok_int_status')
 FAIL_KINDS = ('raise', 'failed')
 MALFORMED_KINDS = ('none', 'notpair3', 'notpair0', 'int', 'badstatus',
                    'badstatus_int', 'badupdate', 'badupdate_list', 'conflict',
                    'badupdate_empty_list', 'badupdate_zero',
-                   'badupdate_empty_str')
+                   'badupdate_empty_str', 'status_plain_1', 'status_plain_2',
+                   'status_true', 'status_float_2', 'own_entry_nonmapping',
+                   'systemexit')
 NONFINAL_KINDS = ('nonfinal_waiting', 'nonfinal_pending')
 
 
@@ -165,6 +167,23 @@ class Monitor:
             return 7, TaskStatus.DONE
         if kind == 'badupdate_list':
             return [1, 2], TaskStatus.DONE
+        if kind == 'ok_int_status':
+            # the value of TaskStatus.DONE as a plain integer
+            self.returned[name] = {}
+            return {}, int(TaskStatus.DONE)
+        if kind == 'own_entry_nonmapping':
+            # a mapping, but it replaces the task's own entry by a string
+            return {name: 'oops'}, TaskStatus.DONE
+        if kind == 'systemexit':
+            raise SystemExit(3)
+        if kind == 'status_plain_1':      # == WAITING: not a final status
+            return {}, 1
+        if kind == 'status_plain_2':      # == PENDING
+            return {}, 2
+        if kind == 'status_true':         # True == 1 == WAITING
+            return {}, True
+        if kind == 'status_float_2':
+            return {}, 2.0
         if kind == 'badupdate_empty_list':     # falsy, still not a mapping
             return [], TaskStatus.DONE
         if kind == 'badupdate_zero':
@@ -496,7 +515,7 @@ class _Patches:
 
 
 def run_controlled(case, strategy, mon=None, env=None, tasks_graphs=None,
-                   max_steps=100000, clock0=0, fine=None):
+                   max_steps=100000, clock0=0, fine=None, repeat=1):
     '''One run of the real scheduler under the controller.'''
     # pylint: disable=too-many-locals,too-many-statements
     import valjean.cosette.backends.queue as qmod
@@ -541,6 +560,11 @@ def run_controlled(case, strategy, mon=None, env=None, tasks_graphs=None,
                 sched = Scheduler(hard_graph=hard, soft_graph=soft,
                                   backend=backend)
                 sched.schedule(env=env)
+                for _ in range(repeat - 1):
+                    # the same Scheduler object (same backend) used again,
+                    # on the environment it has just produced
+                    mon.new_run(case['outcomes'])
+                    sched.schedule(env=env)
                 res.outcome = 'returned'
             except ctlmod.Deadlock:
                 res.outcome = 'deadlock'
@@ -892,6 +916,16 @@ def gen_dag(rng, ntasks, p_hard=0.3, p_soft=0.15):
     return {'tasks': order, 'hard': hard, 'soft': soft}
 
 
+def gen_wide(rng, workers):
+    '''Many tasks that are ready at the same time (more than 100 per
+    worker), a few of them with a common dependent.'''
+    ntasks = 101 * workers + rng.randint(2, 9)
+    names = [f't{i}' for i in range(ntasks)]
+    last = names[-1]
+    hard = {last: rng.sample(names[:-1], 3)}
+    return {'tasks': names, 'hard': hard, 'soft': {}, 'workers': workers}
+
+
 def gen_outcomes(rng, case, kinds, nfail=None):
     names = case['tasks']
     if nfail is None:
@@ -902,5 +936,5 @@ def gen_outcomes(rng, case, kinds, nfail=None):
         if name in bad:
             out[name] = rng.choice(kinds)
         else:
-            out[name] = 'ok' if rng.random() < 0.9 else 'ok_none'
+            out[name] = rng.choice(['ok'] * 18 + ['ok_none', 'ok_int_status'])
     return out
